@@ -1,10 +1,11 @@
 import Driver.OpsBits
 import Driver.OpsSignal
+import Driver.OpsSocketcan
 /- `canmodel`: reads one operation per line on stdin, prints `model<TAB>spec` per line. -/
 open Driver
 
 def dispatch (ws : List String) : String :=
-  let groups : List (List String → Option (String × String)) := [opsBits, opsSignal]
+  let groups : List (List String → Option (String × String)) := [opsBits, opsSignal, opsSocketcan]
   match groups.findSome? (fun g => g ws) with
   | some (m, s) => m ++ "\t" ++ s
   | none => "bad-op\t-"
